@@ -487,6 +487,15 @@ def eq_model(M, interp, a, b, node):
         return eq_model(M, interp, b, a, node)
     if isinstance(a, ExtRef) and isinstance(b, ExtRef):
         return a.path == b.path
+    if isinstance(a, ExtRef) != isinstance(b, ExtRef):
+        ext, other = (a, b) if isinstance(a, ExtRef) else (b, a)
+        if other is None or isinstance(other, (bool, int, Fr, float, list, tuple, dict, set, FuncVal, ClassVal, Instance)):
+            return False          # a library class / function / constant object is none of these
+        if isinstance(other, str) and not ext.path.startswith(('numpy.', 'builtins.')):
+            raise AnalysisError(f'== of the library object {ext.path} and a string not modelled', node)
+        if isinstance(other, str):
+            return False
+        raise AnalysisError(f'== of the library object {ext.path} and {type(other).__name__} not modelled', node)
     try:
         return bool(a == b)
     except Exception:
